@@ -655,6 +655,45 @@ def gen_bind_hostile(seed, mode="loop"):
     return sc
 
 
+def gen_oneshot_burst(seed, mode="loop"):
+    """C03: several messages matching a one-shot subscription are published before the subscriber is served (same step, the
+    last step before the quit so that the final flush delivers them, or while the subscriber is paused): it fires once;
+    re-arming it from its own handler allows one more"""
+    r = random.Random(seed * 79 + 53)
+    sc = Sc(mode, "one-shot subscription, burst of matching messages seed=%d" % seed)
+    driven_skeleton(sc)
+    S, P = 1, 2
+    sc.mod(S, "once", 0, 0)
+    sc.mod(P, "pub", 0, 0)
+    sc.cb(P, "evt", "*", [])
+    lit = r.random() < 0.6
+    t_sub = sc.topic("alpha" if lit else "^al.*")
+    t_pub = sc.topic("alpha")
+    t_other = sc.topic("beta")
+    ud = sc.ud()
+    rearm = r.random() < 0.3
+    sc.cb(S, "evt", "*", [])
+    if rearm:
+        sc.cb(S, "evt", 0, [("sub", -1, t_sub, SRC_ONESHOT, ud)])
+    sc.main += [("reg", S), ("reg", P), ("start", S), ("start", P), ("sub", S, t_sub, SRC_ONESHOT | r.choice([0, 0, SRC_DUP]), ud),
+                ("sub", S, t_other, 0, sc.ud())]
+    burst = [("publish", r.choice([P, DRV]), t_pub, sc.pay(), 0) for _ in range(r.randrange(2, 5))]
+    where = r.choice(["step", "step", "last", "paused"])
+    steps = [[] for _ in range(r.randrange(1, 4))]
+    if where == "step":
+        steps[r.randrange(len(steps))] += burst
+        steps += [[], []]
+        driven_finish(sc, steps, rng=r)
+    elif where == "paused":
+        steps[0] += [("pause", S)] + burst
+        steps += [[("resume", S)], [], []]
+        driven_finish(sc, steps, rng=r)
+    else:
+        driven_finish(sc, steps, rng=r, last_ops=burst)
+    finalize_main(sc)
+    return sc
+
+
 def gen_tick_in_flush(seed, mode="loop"):
     """C20: m_ctx_set_tick() called by a handler that the final flush of a loop run invokes (loop-stopped notification) while a
     tick is active"""
